@@ -83,6 +83,11 @@ CHECKS = {
               "sequential and overlapping submission on main_thread_only workers: main-thread identity, one at a time, "
               "submission order, documented deadlock error for overlaps only.",
               "DESIGN.md 3/C14", "scripted-expectation oracle + body-span checks"),
+    "C16": gw("The same generated schedule-independent two-party channel program (items to 200 KB both ways, sub-channels bare and "
+              "nested, callback bursts, closes, makefile reads, final return/raise) is run on popen, bare popen, socket and "
+              "proxied gateways under independent seeded schedules; transcripts must be identical and match the scripted "
+              "reference outcomes. Control family: ProxyIO kill/close_write/wait must reach the proxied process.",
+              "DESIGN.md 3/C16", "differential transcripts across transports + scripted reference model"),
     "C18": gw("Seeded schedule search with line preemption aimed at the id allocator over concurrent channel creation on both "
               "sides (ids pairwise distinct), and long lockstep histories (10-400, thorough up to 3000 cycles) of open -> "
               "transfer (bare/nested) -> use -> close/drop(+gc) conversations (items arrive on the originator's channel, "
